@@ -47,6 +47,7 @@ def gen_case(rng: Rng, i: int, tier: str):
     t = tree.gen_tree(r, maxdepth=3, nmax=8, name_style=r.pick(["ascii", "bmp", "ascii"]), links=r.chance(0.4), block=32768, maxlen=4000)
     case = {"kind": kind, "tree": t, "arcname_ext": r.chance(0.5), "odir": r.chance(0.6), "verbose": r.chance(0.3), "rng": r.randrange(1 << 30)}
     if kind == "roundtrip":
+        case["password"] = ("pw-%d" % r.randrange(1000)) if r.chance(0.3) else None
         case["tree2"] = tree.gen_tree(r, maxdepth=2, nmax=4, name_style="ascii", links=False, block=32768, maxlen=2000)
         case["dotname"] = r.chance(0.3)
     elif kind == "volumes":
@@ -133,11 +134,20 @@ def run_case(case):
                 base = "release-1.2" if case.get("dotname") else "arc"
                 arcarg = base + ".7z" if case["arcname_ext"] else base
                 arc = os.path.join(work, base + ".7z")
-                st, out, err = cli(["c", arcarg, "src"])
+                pw = case.get("password")
+                st, out, err = cli(["c"] + (["-P"] if pw else []) + [arcarg, "src"], password=pw)
                 if st != 0 or not os.path.exists(arc):
                     viol("create_failed", "c", "'c %s src' exit %r, archive %s exists=%r; stderr %r" % (arcarg, st, base + ".7z", os.path.exists(arc), err[-200:]), dotname=bool(case.get("dotname")))
                     return res
-                with py7zr.SevenZipFile(arc) as z:
+                has_data = any(e["kind"] != "dir" for e in case["tree"])
+                if pw and has_data:
+                    # without -P an encrypted archive must not extract
+                    odir0 = os.path.join(scratch, "out0")
+                    os.makedirs(odir0)
+                    st, out, err = cli(["x", arc, odir0])
+                    if st == 0:
+                        viol("exit_0_on_failure", "x", "'x' without -P exited 0 on an archive created with 'c -P'", fault="no_password")
+                with py7zr.SevenZipFile(arc, password=pw) as z:
                     libnames = z.getnames()
                     info = z.archiveinfo()
                     liblist = z.list()
@@ -157,17 +167,24 @@ def run_case(case):
                         if ("Method = " + ", ".join(info.method_names)) not in out or ("Blocks = %d" % info.blocks) not in out or ("Solid = " + ("+" if info.solid else "-")) not in out:
                             viol("list_differs", "l --verbose", "archive summary differs from archiveinfo(): %r" % [ln for ln in lines if " = " in ln][:8])
                 st, out, err = cli(["t", base + ".7z"])
-                if st != 0:
+                if st != 0 and not pw:
                     viol("intact_archive_fails", "t", "'t' on an intact archive exit %r: %r" % (st, (out + err)[-200:]))
+                if st == 0 and pw and has_data:
+                    viol("exit_0_on_failure", "t", "'t' (which cannot ask for a password) exited 0 on an encrypted archive", fault="no_password")
                 odir = os.path.join(scratch, "out1")
                 os.makedirs(odir)
-                st, out, err = cli(["x", arc] + (["."] if not case["odir"] else [odir]) + (["--verbose"] if case["verbose"] else []), cwd=odir if not case["odir"] else work)
+                st, out, err = cli(["x"] + (["-P"] if pw else []) + [arc] + (["."] if not case["odir"] else [odir]) + (["--verbose"] if case["verbose"] else []),
+                                   cwd=odir if not case["odir"] else work, password=pw)
                 if st != 0:
                     viol("intact_archive_fails", "x", "'x' of an intact archive exit %r: %r" % (st, (out + err)[-300:]))
                 else:
                     why = _tree_ok(os.path.join(odir, "src"), case["tree"])
                     if why:
                         viol("extracted_tree_differs", "c+x", "after c then x: %s" % why)
+                if pw:
+                    res["probes"]["password_roundtrip"] = 1
+                    res["sigs"].append((["roundtrip-password", case["arcname_ext"], case["odir"], len(case["tree"])], True))
+                    raise _Done()
                 # append a second tree
                 tree.build_tree(os.path.join(work, "more"), case["tree2"])
                 st, out, err = cli(["a", base + ".7z", "more"])
@@ -205,6 +222,7 @@ def run_case(case):
                         limit = int(size.rstrip("bBkKmMgG")) * mult
                         if any(os.path.getsize(os.path.join(work, v)) > limit for v in vols):
                             viol("volume_too_large", "c -v", "a volume exceeds %d bytes" % limit)
+                        st2, out2, err2 = cli(["l", vols[0]])
                         joined = os.path.join(scratch, "joined.7z")
                         with open(joined, "wb") as f:
                             f.write(blob)
@@ -218,19 +236,38 @@ def run_case(case):
                             why = "reassembled volumes do not extract: %r" % e
                         if why:
                             viol("volumes_do_not_reassemble", "c -v", "size %s: %s" % (size, why))
+                        else:
+                            with py7zr.SevenZipFile(joined) as z:
+                                vnames = z.getnames()
+                            lines2 = out2.splitlines()
+                            seps = [k for k, ln in enumerate(lines2) if ln.startswith("-------------------")]
+                            got2 = [ln[53:] for ln in lines2[seps[0] + 1:seps[1]]] if len(seps) >= 2 else None
+                            if st2 != 0 or got2 != vnames:
+                                viol("list_differs", "l (volumes)", "'l %s' exit %r lists %r, the library reports %r" % (vols[0], st2, (got2 or [])[:4], vnames[:4]))
                 else:
                     if st == 0:
                         viol("invalid_size_accepted", "c -v", "'c -v %r' exited 0" % size)
                 res["sigs"].append((["volumes", size, case["arcname_ext"]], True))
             else:
                 self_faults(py7zr, case, work, scratch, cli, viol, res)
+        return _finish(res, case, log)
+    except _Done:
+        return _finish(res, case, log)
+    finally:
+        tree.make_removable(scratch)
+        shutil.rmtree(scratch, ignore_errors=True)
+
+
+class _Done(Exception):
+    pass
+
+
+def _finish(res, case, log):
+    if True:
         res["digest"] = digest_of(log)
         res["classes"][case["kind"] + ":" + str(case.get("fault", case.get("size", "")))] = 1
         res["sample"] = {"kind": case["kind"], "invocations": log[:8], "tree": [(e["path"], e["kind"]) for e in case["tree"]][:6], "fault": case.get("fault"), "size": case.get("size")}
         return res
-    finally:
-        tree.make_removable(scratch)
-        shutil.rmtree(scratch, ignore_errors=True)
 
 
 def self_faults(py7zr, case, work, scratch, cli, viol, res):
